@@ -429,6 +429,39 @@ static std::string stepOld(const Toks& t)
 		return b01(op == "copyd" ? File(P(p)).copy(dir) : File(P(p)).move(dir));
 	}
 	// ---- self-contained operations (scratch files 1a, 1b, 2a)
+	if (op == "xshr" && t.size() == 2) {
+		// File::operator>>(String&) on a raw file: the string, position(), end()
+		if (!parseBytes(t[1], bs)) return "bad-op";
+		if (!rawWrite(pathOf(0), bs)) return "err rawput";
+		File f(P(0), File::READ);
+		if (!f) return "err open";
+		String x("junk");
+		f >> x;
+		if (x.length() < 0 || (*x)[x.length()] != '\0') return "err unterminated";
+		return showBytes(x) + " pos=" + str(f.position()) + " end=" + b01(f.end());
+	}
+	if (op == "xshw" && t.size() == 3) {
+		// `f << int(s.length()) << s << tail` then `g >> x` and the rest of the file
+		std::string sb, tb;
+		if (!parseBytes(t[1], sb) || !parseBytes(t[2], tb)) return "bad-op";
+		unlink(pathOf(0).c_str());
+		{
+			File f(P(0), File::WRITE);
+			if (!f) return "err open";
+			String s(sb.data(), (int)sb.size());
+			if (s.length() != (int)sb.size()) return "err string-ctor";
+			ByteArray tail((int)tb.size());
+			if (tb.size()) memcpy(&tail[0], tb.data(), tb.size());
+			f << int(s.length()) << s << tail;
+		}
+		File g(P(0), File::READ);
+		if (!g) return "err open";
+		String x("junk");
+		g >> x;
+		ByteArray rest((int)tb.size() + 8);
+		int m = g.read(&rest[0], rest.length());
+		return showBytes(x) + " rest=" + showBytes(&rest[0], m < 0 ? 0 : m) + " end=" + b01(g.end());
+	}
 	if (op == "xrlw" && t.size() == 2) {
 		// the loop driven by the bool result of readLine(String&): delivered strings, the string left by the final
 		// `false` call, end()
